@@ -12,6 +12,8 @@ mod c16;
 mod c15;
 mod c11;
 mod c12;
+mod c13;
+mod c17;
 pub mod filters;
 
 use std::io::Write;
@@ -46,6 +48,8 @@ fn main() {
         "C15" => c15::run(&mut ctx),
         "C11" => c11::run(&mut ctx),
         "C12" => c12::run(&mut ctx),
+        "C13" => c13::run(&mut ctx),
+        "C17" => c17::run(&mut ctx),
         other => {
             eprintln!("unknown property {}", other);
             std::process::exit(2);
